@@ -57,11 +57,23 @@ Fixpoint lockstep (r : env) (m i : list stmt) : list nat :=
 
 Definition has (k : nat) (l : list nat) : bool := existsb (Nat.eqb k) l.
 
+Definition corr_codes (c : case) (m : list stmt) : list nat :=
+  flat_map (fun e => lockstep (env_of e) m (c_impl c)) (c_envs c).
+Definition corr_bad (codes : list nat) : bool := has 9 codes || has 1 codes || has 3 codes.
+
+(* The implementation is compared with the faithful model [read_code prog]; if that fails but it
+   agrees with [translate prog] — the statements built with the SPECIFICATION's meaning of every
+   intrinsic (MOD = Fortran remainder) — the function table has been repaired in /repo: tag 305
+   (information), no correspondence tag. *)
 Definition check_corr (c : case) : list nat :=
-  let codes := flat_map (fun m => lockstep (env_of m) (read_code (c_prog c)) (c_impl c)) (c_envs c) in
+  let c1 := corr_codes c (read_code (c_prog c)) in
+  let c2 := corr_codes c (translate (c_prog c)) in
+  let repaired := corr_bad c1 && negb (corr_bad c2) in
+  let codes := if repaired then c2 else c1 in
   tag (negb (has 9 codes)) 2 ++
   tag (negb (has 1 codes || has 3 codes)) 1 ++
-  tag (has 0 codes || match read_code (c_prog c) with [] => true | _ => false end) 1001.
+  tag (has 0 codes || match read_code (c_prog c) with [] => true | _ => false end) 1001 ++
+  tag (negb repaired) 305.
 
 (* the property on the implementation's own statements *)
 Definition oracle_at (p : body) (impl : list stmt) (m : list (id * Q)) : nat :=
